@@ -53,8 +53,8 @@ static const char *stname[ST_N] = { "never-sent", "outstanding", "answered", "ti
 	// abandoned before the request reached the wire (the send was still queued):
 	"abandoned-send-timeout", "abandoned-send-cancelled", "abandoned-superseded-in-queue", "abandoned-recv-cancelled-in-queue", "abandoned-ctx-closed" };
 
-enum { OP_NORMAL, OP_SUPERSEDE, OP_TIMEOUT, OP_ABORT, OP_SENDOVER, OP_ABANDON, OP_PROBE, OP_N };
-static const char *opname[OP_N] = { "normal", "supersede", "timeout", "abort", "send-over-recv", "after-abandon", "idle-probe" };
+enum { OP_NORMAL, OP_SUPERSEDE, OP_TIMEOUT, OP_ABORT, OP_SENDOVER, OP_ABANDON, OP_SYNC, OP_PROBE, OP_N };
+static const char *opname[OP_N] = { "normal", "supersede", "timeout", "abort", "send-over-recv", "after-abandon", "sync-api", "idle-probe" };
 
 typedef struct {
 	int      mode, tran, nctx, npipes;
@@ -746,13 +746,43 @@ rep_worker(void *arg)
 	return NULL;
 }
 
+// ------------------------------------------------------------ expiry watch
+// The library's trace hook tells us every time the expire loop picks one of
+// the harness's aios for a timeout.  An NNG_ETIMEDOUT long before the 10 s the
+// harness asked for is excused (as the timer defect of property C02: a stale
+// pick of an earlier operation on the same aio) only if such a pick exists
+// that no completed timeout accounts for; a timeout the timer never produced
+// is this property's business.
+#define NWATCH (MAXCTX * 4)
+typedef struct {
+	_Atomic(const void *) aio;
+	_Atomic long          picks;
+} watch;
+static watch WT[NWATCH];
+
+static void
+c04_ev(int ev, const void *obj, uintptr_t a, uintptr_t b)
+{
+	(void) b;
+	if (ev != NNI_VE_AIO_EXPIRE || (int) a != NNG_ETIMEDOUT) return;
+	for (int i = 0; i < NWATCH; i++) {
+		if (atomic_load_explicit(&WT[i].aio, memory_order_relaxed) == obj) {
+			atomic_fetch_add(&WT[i].picks, 1);
+			return;
+		}
+	}
+}
+
+enum { W_SEND, W_SEND2, W_RECV, W_RECV2 };
+
 // ------------------------------------------------------------ requester side
 typedef struct {
 	int            idx;
 	bool           is_sock;
 	nng_socket     sock;
 	nng_ctx        ctx;
-	nng_aio       *saio, *saio2, *raio;
+	nng_aio       *saio, *saio2, *raio, *raio2;
+	long           acct[4]; // expire-loop picks of our aios already accounted for
 	const casecfg *cc;
 	vf_rng         rng;
 	long           quota;
@@ -765,6 +795,7 @@ typedef struct {
 	// evidence
 	long dlv[K_N], ops[OP_N], estate_ok, connreset, premature, timeouts, abort_won, abort_lost, clobbered, over_cancelled, over_delivered, retry_changes, sends;
 	long abandoned[ST_N], abandon_sent, neigh_collision, neigh_unjudged;
+	long estate_second, sync_ops, nb_eagain, nb_reply, sync_estate;
 	bool dlv_seen[OP_N][K_N];
 } cthr;
 
@@ -776,6 +807,27 @@ static uint32_t
 mktag(const cthr *t, int dir)
 {
 	return (t->cc->nonce << 16) | ((uint32_t) dir << 8) | (uint32_t) t->idx;
+}
+
+// An operation on aio 'which' ended with NNG_ETIMEDOUT: is there a pick by the
+// expire loop that explains it?  (Consumes the pick.)
+static bool
+timer_explains(cthr *t, int which)
+{
+	long picks = atomic_load(&WT[t->idx * 4 + which].picks);
+	if (picks > t->acct[which]) {
+		t->acct[which]++;
+		return true;
+	}
+	return false;
+}
+
+static void
+early_timeout(cthr *t, const char *what, uint32_t seq, unsigned long long el)
+{
+	char key[96];
+	snprintf(key, sizeof(key), "C04/disturbed/timeout-without-timer/%s", what);
+	vf_violation(key, "ctx %d: %s for request seq %u failed with NNG_ETIMEDOUT after %llu ms although its timeout is %d ms and the expire loop never picked the aio", t->idx, what, seq, el, LONG_MS);
 }
 
 static void
@@ -840,9 +892,15 @@ t_send(cthr *t, int dir, bool big)
 		uint64_t el = (vf_now_ns() - t0) / 1000000;
 		if (rv == NNG_ETIMEDOUT && el < LONG_MS * 9 / 10 && attempt < 5 && m != NULL) {
 			// a timeout long before the configured one is a timer
-			// defect (property C02), not this property
-			t->premature++;
-			continue;
+			// defect (property C02), not this property - if it was
+			// the timer
+			if (timer_explains(t, W_SEND)) {
+				t->premature++;
+				continue;
+			}
+			early_timeout(t, "send", seq, (unsigned long long) el);
+		} else if (rv == NNG_ETIMEDOUT) {
+			(void) timer_explains(t, W_SEND);
 		}
 		if (m != NULL) nng_msg_free(m);
 		char key[96];
@@ -995,6 +1053,35 @@ probe_idle(cthr *t)
 	}
 }
 
+// While the context's receive is posted (or has just completed) a second
+// receive must be refused with NNG_ESTATE and must not disturb the first.
+static void
+second_recv(cthr *t)
+{
+	nng_aio_set_timeout(t->raio2, 2000);
+	if (t->is_sock) {
+		nng_socket_recv(t->sock, t->raio2);
+	} else {
+		nng_ctx_recv(t->ctx, t->raio2);
+	}
+	nng_aio_wait(t->raio2);
+	int      rv = nng_aio_result(t->raio2);
+	nng_msg *m = nng_aio_get_msg(t->raio2);
+	bool     got = m != NULL;
+	nng_aio_set_msg(t->raio2, NULL);
+	if (m != NULL) nng_msg_free(m);
+	if (rv == NNG_ESTATE) {
+		t->estate_second++;
+	} else if (rv == NNG_ECONNRESET && LOSSY(t->cc) && t->cc->retry_ms <= 0) {
+		t->connreset++;
+	} else {
+		char key[96];
+		if (rv == NNG_ETIMEDOUT) (void) timer_explains(t, W_RECV2);
+		snprintf(key, sizeof(key), "C04/state/req-second-recv/%s/%s", t->is_sock ? "socket" : "context", errname(rv));
+		vf_violation(key, "ctx %d: a second receive posted while the first is pending returned %s%s, expected NNG_ESTATE", t->idx, nng_strerror(rv), got ? " with a message" : "");
+	}
+}
+
 // finish the outstanding request with a blocking receive
 static void
 recv_expect(cthr *t, int op)
@@ -1004,6 +1091,7 @@ recv_expect(cthr *t, int op)
 	uint32_t cur = t->cur;
 	int      rv;
 	t_recv_start(t, LONG_MS);
+	if (vf_chance(&t->rng, 1, 12)) second_recv(t);
 	rv = t_recv_wait(t, &m);
 	uint64_t el = (vf_now_ns() - t0) / 1000000;
 	t->cur = 0;
@@ -1015,9 +1103,14 @@ recv_expect(cthr *t, int op)
 		t->connreset++;
 	} else if (rv == NNG_ETIMEDOUT && el < LONG_MS * 9 / 10) {
 		set_status(t, cur, ST_TIMEDOUT);
-		t->premature++;
+		if (timer_explains(t, W_RECV)) {
+			t->premature++;
+		} else {
+			early_timeout(t, "receive", cur, (unsigned long long) el);
+		}
 	} else {
 		char key[96];
+		if (rv == NNG_ETIMEDOUT) (void) timer_explains(t, W_RECV);
 		snprintf(key, sizeof(key), "C04/disturbed/reply-not-delivered/%s/%s", opname[op], errname(rv));
 		vf_violation(key, "ctx %d: the reply for seq %u was sent by the peer but receive failed after %llu ms: %s (mode %s, retry %d ms)", t->idx, cur, (unsigned long long) el, nng_strerror(rv), mname[t->cc->mode], t->cc->retry_ms);
 		set_status(t, cur, ST_TIMEDOUT);
@@ -1088,6 +1181,7 @@ op_abandon(cthr *t)
 		a = t_send_begin(t, D_NORMAL, t->saio, (int) vf_range(r, 1, 3));
 		rv = t_send_end(t, t->saio, a);
 		if (rv == NNG_ETIMEDOUT) {
+			(void) timer_explains(t, W_SEND);
 			set_status(t, a, ST_AB_TIMEOUT);
 			t->abandoned[ST_AB_TIMEOUT]++;
 		} else if (rv != 0) {
@@ -1140,6 +1234,7 @@ op_abandon(cthr *t)
 		if (vf_chance(r, 1, 2)) vf_usleep((int) vf_below(r, 300));
 		nng_aio_cancel(t->raio);
 		rv2 = t_recv_wait(t, &m);
+		if (rv2 == NNG_ETIMEDOUT && !timer_explains(t, W_RECV)) early_timeout(t, "receive", a, 0);
 		rv = t_send_end(t, t->saio, a);
 		t->cur = 0;
 		if (rv == NNG_ECANCELED) {
@@ -1176,6 +1271,13 @@ op_abandon(cthr *t)
 		if ((rv2 = nng_ctx_open(&t->ctx, t->sock)) != 0) vf_harness_fail("ctx reopen: %s", nng_strerror(rv2));
 		break;
 	}
+	if (unexpected && rv == NNG_ETIMEDOUT && timer_explains(t, W_SEND)) {
+		// (C02's stale expiry hit the queued send: abandoned all the same)
+		t->premature++;
+		unexpected = false;
+		set_status(t, a, ST_AB_TIMEOUT);
+		t->cur = 0;
+	}
 	if (unexpected) {
 		char key[96];
 		snprintf(key, sizeof(key), "C04/disturbed/send-failed/%s", errname(rv));
@@ -1194,6 +1296,75 @@ op_abandon(cthr *t)
 	if (t_send(t, D_NORMAL, false) != 0) return;
 	if (was_abandoned) t->abandon_sent++;
 	recv_expect(t, was_abandoned ? OP_ABANDON : OP_NORMAL);
+}
+
+// The same exchange through the synchronous wrappers: blocking send, then
+// either a blocking receive or (after a short pause) one NNG_FLAG_NONBLOCK
+// receive, which either returns the reply that is already there or fails with
+// NNG_EAGAIN and leaves the request outstanding (a zero timeout is refused
+// before the receive is ever posted, so nothing is cancelled): the reply is
+// then collected by an ordinary receive.
+static void
+op_sync(cthr *t)
+{
+	vf_rng  *r = &t->rng;
+	nng_msg *m;
+	size_t   size = req_size(t, false);
+	int      rv;
+	if (nng_msg_alloc(&m, size) != 0) vf_harness_fail("msg alloc");
+	uint32_t seq = ++t->seq;
+	vf_body_make(nng_msg_body(m), size, mktag(t, D_NORMAL), seq);
+	if (t->cur != 0) {
+		set_status(t, t->cur, ST_SUPERSEDED);
+		t->cur = 0;
+	}
+	uint64_t t0 = vf_now_ns();
+	rv = t->is_sock ? nng_sendmsg(t->sock, m, 0) : nng_ctx_sendmsg(t->ctx, m, 0);
+	if (rv != 0) {
+		char key[96];
+		nng_msg_free(m);
+		snprintf(key, sizeof(key), "C04/disturbed/send-failed/sync-%s", errname(rv));
+		vf_violation(key, "ctx %d: blocking send of request seq %u failed after %llu ms: %s", t->idx, seq, (unsigned long long) ((vf_now_ns() - t0) / 1000000), nng_strerror(rv));
+		set_status(t, seq, ST_SENDFAIL);
+		return;
+	}
+	t->sends++;
+	t->sync_ops++;
+	set_status(t, seq, ST_OUT);
+	bool nb = vf_chance(r, 1, 2);
+	if (nb) vf_usleep((int) vf_below(r, t->cc->tran == VF_T_INPROC ? 300 : 900));
+	m = NULL;
+	t0 = vf_now_ns();
+	rv = t->is_sock ? nng_recvmsg(t->sock, &m, nb ? NNG_FLAG_NONBLOCK : 0) : nng_ctx_recvmsg(t->ctx, &m, nb ? NNG_FLAG_NONBLOCK : 0);
+	if (rv == 0) {
+		set_status(t, seq, ST_ANSWERED);
+		if (nb) t->nb_reply++;
+		judge(t, m, seq, OP_SYNC);
+	} else if (nb && rv == NNG_EAGAIN) {
+		t->nb_eagain++;
+		t->cur = seq;
+		recv_expect(t, OP_SYNC);
+	} else if (rv == NNG_ECONNRESET && LOSSY(t->cc) && t->cc->retry_ms <= 0) {
+		set_status(t, seq, ST_CONNRESET);
+		t->connreset++;
+	} else {
+		char key[96];
+		snprintf(key, sizeof(key), "C04/disturbed/reply-not-delivered/sync-api/%s", errname(rv));
+		vf_violation(key, "ctx %d: %s receive for seq %u failed after %llu ms: %s", t->idx, nb ? "non-blocking" : "blocking", seq, (unsigned long long) ((vf_now_ns() - t0) / 1000000), nng_strerror(rv));
+		set_status(t, seq, ST_TIMEDOUT);
+	}
+	// idle now: the synchronous receive must say so too
+	m = NULL;
+	rv = t->is_sock ? nng_recvmsg(t->sock, &m, vf_chance(r, 1, 2) ? NNG_FLAG_NONBLOCK : 0) : nng_ctx_recvmsg(t->ctx, &m, vf_chance(r, 1, 2) ? NNG_FLAG_NONBLOCK : 0);
+	if (rv == 0) {
+		judge(t, m, 0, OP_SYNC);
+	} else if (rv == NNG_ESTATE) {
+		t->sync_estate++;
+	} else if (!(rv == NNG_ECONNRESET && LOSSY(t->cc) && t->cc->retry_ms <= 0)) {
+		char key[96];
+		snprintf(key, sizeof(key), "C04/state/req-recv-without-request/sync-%s", errname(rv));
+		vf_violation(key, "ctx %d: synchronous receive with no outstanding request (previous %s) returned %s, expected NNG_ESTATE", t->idx, stname[t->last_state], nng_strerror(rv));
+	}
 }
 
 static void *
@@ -1217,12 +1388,17 @@ ctx_thread(void *arg)
 			if (t->cur == 0 && vf_chance(r, 1, 4)) probe_idle(t);
 			continue;
 		}
+		if (vf_chance(r, 1, 14)) {
+			t->ops[OP_SYNC]++;
+			op_sync(t);
+			continue;
+		}
 		int      op = k < 52 ? OP_NORMAL : k < 66 ? OP_SUPERSEDE : k < 78 ? OP_TIMEOUT : k < 90 ? OP_ABORT : OP_SENDOVER;
 		t->ops[op]++;
 		switch (op) {
 		case OP_NORMAL: {
 			int  dir = (cc->retry_ms > 0 && vf_chance(r, 1, 16)) ? D_DELAY : D_NORMAL;
-			bool big = cc->big && vf_chance(r, 1, 12);
+			bool big = cc->big && vf_chance(r, 1, 6);
 			if (t_send(t, dir, big) != 0) break;
 			if (cc->rchg && vf_chance(r, 1, 20)) {
 				// changing the resend time of a request in flight
@@ -1259,6 +1435,7 @@ ctx_thread(void *arg)
 				set_status(t, cur, ST_ANSWERED);
 				judge(t, m, cur, op); // a held request is never answered
 			} else if (rv == NNG_ETIMEDOUT) {
+				(void) timer_explains(t, W_RECV);
 				set_status(t, cur, ST_TIMEDOUT);
 				t->timeouts++;
 			} else if (rv == NNG_ECONNRESET && LOSSY(cc) && cc->retry_ms <= 0) {
@@ -1285,7 +1462,11 @@ ctx_thread(void *arg)
 			if (rv == NNG_ETIMEDOUT && (vf_now_ns() - t0) / 1000000 < LONG_MS * 9 / 10) {
 				// timer defect (C02): an earlier, already finished
 				// receive's expiry was applied to this one
-				t->premature++;
+				if (timer_explains(t, W_RECV)) {
+					t->premature++;
+				} else {
+					early_timeout(t, "receive", cur, (unsigned long long) ((vf_now_ns() - t0) / 1000000));
+				}
 				rv = NNG_ECANCELED;
 			}
 			if (rv == 0) {
@@ -1318,7 +1499,11 @@ ctx_thread(void *arg)
 			rv = t_send(t, D_NORMAL, false); // marks 'first' superseded
 			int rv2 = t_recv_wait(t, &m);
 			if (rv2 == NNG_ETIMEDOUT && (vf_now_ns() - t0) / 1000000 < LONG_MS * 9 / 10) {
-				t->premature++; // see OP_ABORT
+				if (timer_explains(t, W_RECV)) { // see OP_ABORT
+					t->premature++;
+				} else {
+					early_timeout(t, "receive", first, (unsigned long long) ((vf_now_ns() - t0) / 1000000));
+				}
 				rv2 = NNG_ECANCELED;
 			}
 			if (rv2 == 0) {
@@ -1342,7 +1527,10 @@ ctx_thread(void *arg)
 		}
 		// the context is idle now: a receive must say NNG_ESTATE, even
 		// while duplicates / stale replies for it keep arriving
-		if (t->cur == 0 && vf_chance(r, 1, 4)) {
+		// (always after a cancelled / timed out request: its reply is
+		// still on its way and must not be stored for this context)
+		bool cancelled = t->last_state == ST_TIMEDOUT || t->last_state == ST_ABORTED;
+		if (t->cur == 0 && (cancelled || vf_chance(r, 1, 4))) {
 			if (vf_chance(r, 1, 2)) vf_usleep((int) vf_below(r, 800));
 			probe_idle(t);
 		}
@@ -1372,6 +1560,8 @@ run_case(long idx, const casecfg *cc)
 	nng_socket_set_ms(req, NNG_OPT_RECONNMINT, 2);
 	nng_socket_set_ms(req, NNG_OPT_RECONNMAXT, 10);
 	nng_socket_set_size(req, NNG_OPT_RECVMAXSZ, 0);
+	nng_socket_set_ms(req, NNG_OPT_SENDTIMEO, LONG_MS); // (for the synchronous calls;
+	nng_socket_set_ms(req, NNG_OPT_RECVTIMEO, LONG_MS); //  contexts inherit them)
 
 	// the other side
 	if (cc->mode == M_TCPADV) {
@@ -1440,7 +1630,12 @@ run_case(long idx, const casecfg *cc)
 		t->last_state = ST_NONE;
 		vf_rng_seed(&t->rng, cc->key, 100 + (uint64_t) i);
 		if (!t->is_sock && (rv = nng_ctx_open(&t->ctx, req)) != 0) vf_harness_fail("ctx open: %s", nng_strerror(rv));
-		if (nng_aio_alloc(&t->saio, NULL, NULL) != 0 || nng_aio_alloc(&t->saio2, NULL, NULL) != 0 || nng_aio_alloc(&t->raio, NULL, NULL) != 0) vf_harness_fail("aio alloc");
+		if (nng_aio_alloc(&t->saio, NULL, NULL) != 0 || nng_aio_alloc(&t->saio2, NULL, NULL) != 0 || nng_aio_alloc(&t->raio, NULL, NULL) != 0 || nng_aio_alloc(&t->raio2, NULL, NULL) != 0) vf_harness_fail("aio alloc");
+		nng_aio *wa[4] = { t->saio, t->saio2, t->raio, t->raio2 };
+		for (int w = 0; w < 4; w++) {
+			atomic_store(&WT[i * 4 + w].picks, 0);
+			atomic_store(&WT[i * 4 + w].aio, (const void *) wa[w]);
+		}
 		if (pthread_create(&pt[i], NULL, ctx_thread, t) != 0) vf_harness_fail("pthread_create");
 	}
 	for (int i = 0; i < cc->nctx; i++) pthread_join(pt[i], NULL);
@@ -1453,6 +1648,8 @@ run_case(long idx, const casecfg *cc)
 		if (!th[i].is_sock) nng_ctx_close(th[i].ctx);
 		nng_aio_free(th[i].saio);
 		nng_aio_free(th[i].saio2);
+		nng_aio_free(th[i].raio2);
+		for (int w = 0; w < 4; w++) atomic_store(&WT[i * 4 + w].aio, (const void *) NULL);
 		nng_aio_free(th[i].raio);
 	}
 	nng_socket_close(req);
@@ -1494,6 +1691,11 @@ run_case(long idx, const casecfg *cc)
 		vf_stat("estate_req_recv", t->estate_ok);
 		vf_stat("connreset_notices", t->connreset);
 		vf_stat("premature_timeouts", t->premature);
+		vf_stat("estate_req_second_recv", t->estate_second);
+		vf_stat("sync_api_exchanges", t->sync_ops);
+		vf_stat("nonblock_recv_eagain", t->nb_eagain);
+		vf_stat("nonblock_recv_reply", t->nb_reply);
+		vf_stat("estate_req_recv_sync", t->sync_estate);
 		vf_stat("cancel_by_timeout", t->timeouts);
 		vf_stat("cancel_won", t->abort_won);
 		vf_stat("cancel_lost_to_reply", t->abort_lost);
@@ -1617,6 +1819,7 @@ main(int argc, char **argv)
 {
 	vf_init(argc, argv);
 	vf_nng_init(4, 2, 2);
+	vf_ev_hook(c04_ev);
 	bool thorough = vf_tier == 1;
 	for (long idx = 0; idx < vf_cases; idx++) {
 		if (!vf_want_case(idx)) continue;
